@@ -42,6 +42,11 @@ def catalog():
     s.virt("lim", Op("-", "off", 3), requires=Op(">=", THIS, -2))
     # $present of a nested path: the outer field is unconditional, the member is conditional
     s.virt("pw", Op("?:", Pres("in_", "w"), 200, "off"))
+    # ... and the outer field conditional: "present in ITS structure" is the member's own condition, evaluated in the
+    # (possibly absent) sub-view - an unconditional member of an absent structure still counts as present in it
+    s.sub("opt", 5, 2, "Inner", args=[R("kk")], cond=Op("==", "off", 1))
+    s.virt("po", Op("?:", Pres("opt", "w"), 1, 2))
+    s.virt("pv", Op("?:", Pres("opt", "v"), 1, 2))
     ps.append(p)
 
     # P4: enum fields and parameters, ?: and $max, $present
@@ -154,4 +159,8 @@ def catalog():
     s.array("data", 1, 70, ("UInt",), 1)
     s.scalar("tail", 71, 1, st="Int")
     ps.append(p)
+    import os
+    only = [x for x in os.environ.get("VERIF_PROGS", "").split(",") if x]      # development aid: a subset of the catalogue
+    if only:
+        ps = [q for q in ps if q.name in only]
     return ps
